@@ -219,6 +219,9 @@ fn cfg_strategy() -> BoxedStrategy<Cfg> {
 pub struct C13;
 impl SubCheck for C13 {
     type Case = Case;
+    fn crash_guard(&self) -> bool {
+        true
+    }
     fn name(&self) -> &'static str {
         "c13-sampled"
     }
